@@ -14,6 +14,7 @@
 #include <cxxabi.h>
 #include <unistd.h>
 #include <stdexcept>
+#include <algorithm>
 
 #include <xercesc/util/PlatformUtils.hpp>
 #include <xercesc/util/XMLUni.hpp>
@@ -161,7 +162,11 @@ static void collectElements(DOMNode* root, std::vector<DOMElement*>& v) {
 
 static const XMLCh* orNull(const xstr& s, bool isNull) { return isNull ? 0 : s.c_str(); }
 
-// One edit operation.  payload = main string argument; options: op, at (element index), name, uri ("~" = null), a2
+// the element created by the most recent el / elns operation of the current case (at=-1 addresses it, so that a script
+// can build a chain ancestor -> new child -> new grandchild; an index cannot, it counts in document order)
+static DOMElement* gLastCreated = 0;
+
+// One edit operation.  payload = main string argument; options: op, at (element index; -1 = the element created last), name, uri ("~" = null), a2
 static void applyOp(DOMDocument* doc, const Step& st, size_t idx) {
     std::map<std::string, std::string>::const_iterator it;
     std::string op = (it = st.opt.find("op")) != st.opt.end() ? it->second : "";
@@ -174,7 +179,8 @@ static void applyOp(DOMDocument* doc, const Step& st, size_t idx) {
     std::string tag = "OP\t" + itos((long long)idx) + "\t" + op;
     bool ok = guarded(tag, [&]() {
         std::vector<DOMElement*> els; collectElements(doc, els);
-        DOMElement* e = els.empty() ? 0 : els[(size_t)at % els.size()];
+        DOMElement* e = els.empty() ? 0 : els[(size_t)(at < 0 ? 0 : at) % els.size()];
+        if (at < 0 && gLastCreated && std::find(els.begin(), els.end(), gLastCreated) != els.end()) e = gLastCreated;
         if (op == "rmdoctype") { DOMDocumentType* dt = doc->getDoctype(); if (dt) { doc->removeChild(dt); } return; }
         if (op == "setver") { doc->setXmlVersion(xval.c_str()); return; }
         if (op == "standalone") { doc->setXmlStandalone(st.payload == "1"); return; }
@@ -187,8 +193,8 @@ static void applyOp(DOMDocument* doc, const Step& st, size_t idx) {
         if (op == "doccomment") { doc->appendChild(doc->createComment(xval.c_str())); return; }
         if (op == "docpi") { doc->insertBefore(doc->createProcessingInstruction(xname.c_str(), xval.c_str()), doc->getDocumentElement()); return; }
         if (!e) throw std::runtime_error("no element");
-        if (op == "elns") e->appendChild(doc->createElementNS(orNull(xuri, uriNull), xname.c_str()));
-        else if (op == "el") e->appendChild(doc->createElement(xname.c_str()));
+        if (op == "elns") { gLastCreated = doc->createElementNS(orNull(xuri, uriNull), xname.c_str()); e->appendChild(gLastCreated); }
+        else if (op == "el") { gLastCreated = doc->createElement(xname.c_str()); e->appendChild(gLastCreated); }
         else if (op == "attns") e->setAttributeNS(orNull(xuri, uriNull), xname.c_str(), xval.c_str());
         else if (op == "att") e->setAttribute(xname.c_str(), xval.c_str());
         else if (op == "rmatt") e->removeAttribute(xname.c_str());
@@ -352,7 +358,9 @@ static void roundTrip(const Case& c) {
     XDomP p1;
     if (!doParse(p1, c.steps[0].payload, c, "P1", 0)) return;
     DOMDocument* doc = p1.getDocument();
+    gLastCreated = 0;
     for (size_t i = 1; i < c.steps.size(); i++) if (c.steps[i].kind == "TXT") applyOp(doc, c.steps[i], i);
+    gLastCreated = 0;
     if (c.geti("normalize", 0)) {
         // DOM Level 3 normalizeDocument with namespace fix-up (DOMNormalizer::namespaceFixUp)
         guarded("NORM", [&]() {
